@@ -402,13 +402,10 @@ Definition count_extras (items : list pitem) : nat :=
 
 
 
-Fixpoint eval (fuel : nat) (rho : env) (e : expr) {struct fuel} : res value :=
-  match fuel with
-  | O => OutOfFuel
-  | S fuel' =>
-    let ev := eval fuel' in
+(* one unfolding of the evaluator, over the evaluator and pattern binder of the level below *)
+Definition evalF (ev : env -> expr -> res value) (bind : env -> pat -> value -> res env)
+                 (rho : env) (e : expr) : res value :=
     let evd := fun rho e => do v <- ev rho e; as_data v in
-    let bind := bind_pat fuel' in
     let apply := fun (f : value) (a : value) =>
       match f with
       | Clos cenv p body =>
@@ -585,15 +582,10 @@ Fixpoint eval (fuel : nat) (rho : env) (e : expr) {struct fuel} : res value :=
         | VSet _, _ => Unspec
         | _, _ => Err
         end
-    end
-  end
+    end.
 
-with bind_pat (fuel : nat) (rho : env) (p : pat) (v : value) {struct fuel} : res env :=
-  match fuel with
-  | O => OutOfFuel
-  | S fuel' =>
-    let ev := eval fuel' in
-    let bind := bind_pat fuel' in
+Definition bindF (ev : env -> expr -> res value) (bind : env -> pat -> value -> res env)
+                 (rho : env) (p : pat) (v : value) : res env :=
     let bind_item := fun (acc : env) (it : pat) (x : value) =>
       do sc <- bind rho it x;
       match env_matched_update acc sc with Some r => Ok r | None => Err end in
@@ -721,10 +713,18 @@ with bind_pat (fuel : nat) (rho : env) (p : pat) (v : value) {struct fuel} : res
                end) items l None
         | _ => Err
         end
-    end
+    end.
+
+Fixpoint eval (fuel : nat) (rho : env) (e : expr) {struct fuel} : res value :=
+  match fuel with
+  | O => OutOfFuel
+  | S fuel' => evalF (eval fuel') (bind_pat fuel') rho e
+  end
+with bind_pat (fuel : nat) (rho : env) (p : pat) (v : value) {struct fuel} : res env :=
+  match fuel with
+  | O => OutOfFuel
+  | S fuel' => bindF (eval fuel') (bind_pat fuel') rho p v
   end.
-
-
 
 Definition run (fuel : nat) (e : expr) : res value := eval fuel [] e.
 Definition run_data (fuel : nat) (e : expr) : res val := do v <- run fuel e; as_data v.
